@@ -442,6 +442,26 @@ def check_polar(ctx, rules=("METRIC", "ANGLES", "DIV0")):
                                f"norm taken as `{U(s.value)}`")
     if dist_name is None and "METRIC" in rules:
         ctx.violate("METRIC", site + ":norm", fi, "distance is not the norm of the periodic difference vector")
+    if "METRIC" in rules and diff_name:
+        # the vector the grid computed is used as it is: a hand-written wrap of a component re-implements the periodic metric; one
+        # that takes its period from the number of cells (grid.shape) mixes cell counts with lengths and is wrong for every spacing ≠ 1
+        writes = []
+        for s_ in fv.statements():
+            tg = s_.targets if isinstance(s_, ast.Assign) else ([s_.target] if isinstance(s_, ast.AugAssign) else [])
+            for t_ in tg:
+                r_ = t_
+                while isinstance(r_, (ast.Subscript, ast.Attribute)):
+                    r_ = r_.value
+                if isinstance(t_, (ast.Subscript, ast.Attribute)) and isinstance(r_, ast.Name) and r_.id == diff_name:
+                    writes.append(s_)
+        counts = [w for w in writes if any(x in U(fv.expand(w.value, w, stop=(grid_p,))) for x in (f"{grid_p}.shape", f"{grid_p}.num_cells", f"len({grid_p}."))]
+        if counts:
+            ctx.violate("METRIC", site + ":unmodified", (fi, counts[0]), f"`{U(counts[0])[:90]}` shifts a component of the periodic difference vector by a period taken from the number of cells: "
+                        "the vector is a length, so for a grid spacing other than 1 the wrapped distance is wrong (a second, spurious image of the droplet is rendered and located)")
+        elif writes:
+            ctx.undecided("METRIC", site + ":unmodified", (fi, writes[0]), f"the periodic difference vector is modified in place: `{U(writes[0])[:80]}`")
+        else:
+            ctx.hold("METRIC", site + ":unmodified", fi, "the periodic difference vector is used as the grid computed it")
     # ---- the angles are dispatched on the *space* dimension (symmetric grids have fewer axes than dimensions)
     if "ANGLES" in rules or "ARITY" in rules:
         disp = [s_ for s_ in fv.statements() if isinstance(s_, ast.If) and any(x in U(fv.expand(s_.test, s_, stop=(grid_p,))) for x in (f"{grid_p}.num_axes", f"len({grid_p}.shape)", f"{grid_p}.ndim", f"len({grid_p}.axes)"))]
